@@ -35,7 +35,7 @@ impl Prop for C19 {
   fn check(c: &Case, _cx: &Cx) -> Verdict { check(c) }
 }
 
-pub fn program(c: &Case) -> Program { progs::build(&c.choices, Opts { allow_mutation: c.mutate, allow_noncore: true, max_stmts: 12 }) }
+pub fn program(c: &Case) -> Program { progs::build(&c.choices, Opts { allow_mutation: c.mutate, allow_noncore: true, max_stmts: 12, trailing_other: false }) }
 
 enum Run { Ok(Snapshot, RVal, Snapshot, Option<RVal>, Vec<String>), Rejected(String), StepFailed(String) }
 
